@@ -79,6 +79,28 @@ CHECKS = {
         design_ref='DESIGN.md section 2, C14',
         note='Trusted: mc/ref/regex.py (Thompson NFA + subset construction), mc/gen/edits.py. Facet pairs and xs:redefine are not covered yet. '
              'The converse (valid restriction refused) is not claimed. ~2.1k accepted-but-widening restrictions are listed per (base, derived, witness) in known_findings.jsonl.'),
+    'C18': dict(
+        technique='stateless exploration of every thread schedule up to a preemption bound (iterative context bounding) on real threads under a controlled scheduler',
+        text='Model checking of the implementation: 2 real threads (3 in one thorough harness) share one schema object; a hand-written scheduler serialises them '
+             'with a baton and owns every scheduling decision (sys.settrace call events + cooperative replacements of the library locks). Every schedule with '
+             '<= 1 preemption at ANY xmlschema function call (layer A) and <= 2 preemptions (3 for the small harnesses in thorough) at the shared-state interface '
+             '(caches, cached properties, build, staged maps, scratch context, identity widening, lock operations) is executed on a fresh schema; each thread result '
+             'must equal the single-threaded result, a build race must build every global exactly once, deadlock and divergence are detected. Harnesses: build race, '
+             'xsi:type-in-key validations, scratch-context users, first use of caches/XPath, decode||encode, shared lazy resource.',
+        design_ref='DESIGN.md section 2, C18',
+        note='Trusted: mc/explore/threadsched.py. Not modelled: preemption inside C code or between bytecodes of one function without a call; free-threaded builds. '
+             'A recorded schedule is replayed twice and must give identical observations before it is reported.'),
+    'C02': dict(
+        technique='exhaustive enumeration of all strings up to a length bound over per-type alphabets + boundary catalogue + facet sets; derivative-automaton / value-space reference replayed on three channels',
+        text='Model checking by bounded exhaustive enumeration: for every built-in atomic type of XSD 1.0 and 1.1 ALL strings of length <= 4 over a per-type '
+             'alphabet (length 5: seed slice in quick, all in thorough), a boundary catalogue with all edit-distance-1 neighbours, every facet set of size <= 2 (3) '
+             'over one and two derivation levels, lists and unions, and the decode options. Each text is judged by an independent reference (lexical regexes run as '
+             'Brzozowski-derivative automata, own value-space arithmetic) and replayed through an element, an attribute and the type itself: verdict, decoded value, '
+             'decode(encode(decode(t))) == decode(t), and no foreign exception.',
+        design_ref='DESIGN.md section 2, C02',
+        note='Trusted: mc/ref/datatypes.py (950 lines, no xmlschema/elementpath code). Open cases (1.0 anyURI, years beyond 4 digits, durations beyond the minimum '
+             'range, type-level QName encode) are counted, not judged. Known findings: timezone partial order in bounds/enumerations, 24:00:00 at a year end, list '
+             'enumeration decode, True == 1 in union enumeration, residual Unicode stripping inside elementpath.'),
 }
 
 PENDING_REASON = 'check not built yet in this session; the design (DESIGN.md section 2) applies bounded exhaustive exploration to it'
